@@ -35,7 +35,7 @@ func init() {
 		Parallel:    func(tier string) int { return 8 },
 		Require: func(tier string) map[string]int64 {
 			return map[string]int64{"scenarios": 600, "directed_runs": 200, "directed_achieved": 40, "quiescent_checks": 600, "closed_checks": 60, "shared_session_scenarios": 60, "store_faults": 40, "panics_injected": 20,
-				"cancelled_contexts": 60, "hook_events": 20000, "distinct_interleavings": 300}
+				"cancelled_contexts": 60, "hook_events": 20000, "interleavings_recorded": 300}
 		},
 		WorkerTimeoutSec: func(tier string) int {
 			if tier == "thorough" {
@@ -405,7 +405,7 @@ joined:
 		c.Count("directed_infeasible", 1)
 	}
 	c.Nontrivial(ctl.InterleavingHash() ^ fw.Hash64([]byte(fmt.Sprint(sc.Actors, sc.Session))))
-	c.Count("distinct_interleavings", 1)
+	c.Count("interleavings_recorded", 1) // (the number of distinct ones is distinct_nontrivial)
 	if p := unexpected.Load(); p != nil {
 		c.Violate("panic-escaped", "a call panicked: "+p.(string), witness(nil))
 		return true
